@@ -425,6 +425,14 @@ func parseLemmaSteps(s string) ([]*LemmaStep, error) {
 			}
 			out = append(out, &LemmaStep{Kind: "assert", Expr: x})
 			s = s[end:]
+		case strings.HasPrefix(s, "unfold "):
+			end := topIndex(s, ';')
+			x, err := parseSpecExpr(s[7:end])
+			if err != nil {
+				return nil, err
+			}
+			out = append(out, &LemmaStep{Kind: "unfold", Expr: x})
+			s = s[end:]
 		case strings.HasPrefix(s, "use "):
 			end := topIndex(s, ';')
 			x, err := parseSpecExpr(s[4:end])
